@@ -33,6 +33,10 @@ def dtype_mix(rt):
             (T("astype"), df.astype({"i": "float64", "g": "int32"})), (T("assign"), df.assign(z=df.i * 1.5, w=df.b)), (T("rename"), df.rename(columns={"i": "ii"})),
             (T("reset_index"), df.reset_index()), (T("set_index"), df.set_index("i")), (T("sort_values"), df.sort_values("f")), (T("to_frame"), df.i.to_frame()),
             (T("series rename"), df.i.rename("renamed")), (T("merge"), df.merge(df[["g", "f"]], on="g")), (T("merge left empty side"), emptyfirst.merge(df[["g", "s"]], on="g", how="left")),
+            (T("merge indicator broadcast"), df.merge(df[["g", "f"]].repartition(npartitions=2), on="g", how="inner", indicator=True, broadcast=True, shuffle_method="tasks")),
+            (T("merge indicator hash"), df.merge(df[["g", "f"]], on="g", how="left", indicator=True, broadcast=False, shuffle_method="tasks")),
+            (T("merge indicator single"), df.merge(df[["g", "f"]].repartition(npartitions=1), on="g", how="left", indicator=True)),
+            (T("merge suffixes"), df.merge(df, on="g", suffixes=("_l", "_r"))),
             (T("concat"), rt.dx.concat([df, df])), (T("concat axis1"), rt.dx.concat([df[["i"]], df[["s"]]], axis=1)),
             (T("cumsum"), df[["i", "f"]].cumsum()), (T("shift"), df[["i", "s"]].shift(1)), (T("where"), df[["i", "f"]].where(df.i > 3)),
             (T("mask int->float promotion"), df[["i"]].mask(df.i > 3)), (T("comparison"), df.i > 3), (T("and"), (df.i > 3) & df.b), (T("invert"), ~df.b),
